@@ -290,6 +290,7 @@ def run(tier, seed, prefix='C18', want=('TF', 'SS'), pack=None):
         # how an expression string given as a block input becomes one operand of the block's equations
         from contracts.packutil import run_contracts
         run_contracts(pack, [(dummy_value('C18'), None, replay_dummy_value)])
+        gain_limiter_at_limits(pack, 'C18')
         return pack.finish()
     return pack
 
@@ -404,3 +405,52 @@ def replay_dummy_value(obligation=None, model=None, meta=None):
             return {'confirmed': True, 'inputs': {'expression': s, 'values': env}, 'observed': 'operand name %r: 3 * name - 1 = %r, 3 * (expression) - 1 = %r' % (nm, got, want),
                     'native_cmd': 'DummyValue(expression).name pasted into 3 * <name> - 1'}
     return {'confirmed': False, 'tried': n}
+
+
+def gain_limiter_at_limits(pack, prefix='C18'):
+    """GainLimiter on and beyond its limits: with the upper flag raised the output equation gives y = R * upper, with the lower flag
+    y = R * lower, inside y = R * K * u (flag semantics of Limiter.check_var from C09; sign_upper = sign_lower = 1): the gain behind the
+    limiter applies to the LIMITED value in all three regimes, so that the output stays inside [R lower, R upper] for R >= 0."""
+    from andes.core import block as bk
+    model = build(lambda m: bk.GainLimiter(u=m.uu, K=m.K, R=m.R, lower=m.lo, upper=m.up))
+    bvars = dict(block_vars(model))
+    n = 0
+    for regime, flags, want in (('upper', dict(zi=0, zu=1, zl=0), 'R * up'), ('lower', dict(zi=0, zu=0, zl=1), 'R * lo'), ('inside', dict(zi=1, zu=0, zl=0), 'R * K * uu')):
+        ctx = X.Ctx()
+        tr = X.Translator(ctx)
+        hyps = []
+        for nm, v in bvars.items():
+            rhs = X.tz(X.as_num(tr.tr(X.parse(v.e_str if v.e_str is not None else '0'))).v)
+            hyps.append(z3.RealVal(0) == rhs)
+        for f, val in flags.items():
+            hyps.append(ctx.sym('B_lim_' + f) == val)
+        for sgn in ('B_lim_sign_upper', 'B_lim_sign_lower', 'sign_upper', 'sign_lower'):
+            hyps.append(ctx.sym(sgn) == 1)
+        goal = ctx.sym('B_y') == X.tz(X.as_num(tr.tr(X.parse(want))).v)
+        oname = '%s/%s:GainLimiter.define/post:regime[%s]:y=%s' % (prefix, BLOCK_FILE, regime, want.replace(' ', ''))
+        r = prove(oname, hyps, goal, meta={'block': 'GainLimiter', 'regime': regime, 'equations': {k: v.e_str for k, v in bvars.items()}}, keep_smt2=True)
+        d = r.as_dict()
+        pack.add(d)
+        n += 1
+        if d['verdict'] == 'refuted':
+            # native replay: evaluate the declared output equation at concrete numbers
+            env = dict(uu=0.7, K=2.0, R=0.25, lo=-0.3, up=0.9, B_x=1.4, B_lim_sign_upper=1.0, B_lim_sign_lower=1.0)
+            env.update({'B_lim_' + f: float(v) for f, v in flags.items()})
+            target = eval(want, {}, dict(env))
+            y_expr = bvars['B_y'].e_str
+            # the equation is  <expression> - B_y = 0:  solve for B_y by evaluating with B_y = 0
+            env['B_y'] = 0.0
+            try:
+                got = eval(y_expr, {}, dict(env))
+                conf = {'confirmed': abs(got - target) > 1e-12, 'inputs': env, 'observed': 'declared equation gives y = %r, the limited and scaled value is %r' % (got, target),
+                        'native_cmd': 'python eval of GainLimiter.y.e_str with the listed values'}
+            except Exception as e:      # noqa
+                conf = {'confirmed': False, 'error': repr(e)}
+            payload = {'solver': d['backend'], 'model': d['model'], 'equation': y_expr, 'native': conf}
+            if conf.get('confirmed'):
+                pack.violation(oname, payload)
+            else:
+                pack.violation(oname, payload, no_input=True)
+        elif d['verdict'] != 'proved':
+            pack.undecided_obl(oname, d.get('note', ''))
+    pack.add_function('GainLimiter.define (limit regimes)', BLOCK_FILE, obligations=n)
